@@ -8,6 +8,7 @@ import (
 	"bytes"
 	"encoding/binary"
 	"fmt"
+	"io"
 	"math"
 	"strings"
 	"time"
@@ -170,6 +171,9 @@ func bigSpzCase(d bigSpzDesc) hx.Case {
 		c.Coq = head + "None"
 		return c
 	}
+	if side := spzSideChecks(gz(stream), true, meshDigest(r.c.Mesh), r.c); side != "" && c.GoFail == "" {
+		c.GoFail, c.FailKey = side, "spz:reader-shape"
+	}
 	h, m := r.c.Header, r.c.Mesh
 	var fpos, falpha, fcol, fscale, frot, fsh fpState
 	npos, nalpha, ncol, nscale, nrot := 0, 0, 0, 0, 0
@@ -324,6 +328,14 @@ func bigSplatCase(d bigSplatDesc) hx.Case {
 		}()
 		rm, rerr = splat.Read(bytes.NewReader(out))
 	}()
+	if c.GoFail == "" {
+		if f := shapeCheck("splat.Read", out, rerr == nil, meshDigest(rm), func(in io.Reader) (*modeling.Mesh, error) {
+			m2, e := splat.Read(in)
+			return &m2, e
+		}); f != "" {
+			c.GoFail, c.FailKey = f, "splat:reader-shape"
+		}
+	}
 	var fpos, fcoarse, fexact fpState
 	rdN := 0
 	if rm.HasFloat3Attribute(modeling.PositionAttribute) && rm.HasFloat3Attribute(modeling.ScaleAttribute) &&
@@ -511,6 +523,9 @@ func bigPlyCase(d bigPlyDesc) hx.Case {
 	} else {
 		rm := *r.m
 		rdN = rm.PrimitiveCount()
+		if f := shapeCheck("ply.ReadMesh", out, true, meshDigest(rm), ply.ReadMesh); f != "" && c.GoFail == "" {
+			c.GoFail, c.FailKey = f, "splatply:reader-shape"
+		}
 		word := func(f *fpState, x float64) {
 			if finite(x) && float64(float32(x)) != x {
 				f.add(badCode)
@@ -593,6 +608,10 @@ func bigFixed(run *hx.Run, thorough bool) {
 	if !thorough {
 		combos = append(combos, vd{2, 1, 65537}, vd{1, 3, 65537})
 	}
+	// sizes at which the uncompressed stream (16 + n * bytes per point) reaches / just passes the inflater's 32 KiB
+	// window and its multiples: 19 + 3*shDim bytes per point in version 2, 16 + 3*shDim in version 1
+	combos = append(combos, vd{2, 0, 1723}, vd{2, 0, 1724}, vd{1, 0, 2047}, vd{1, 0, 2048}, vd{2, 3, 511}, vd{2, 3, 512},
+		vd{2, 2, 762}, vd{1, 1, 1310}, vd{2, 1, 2340}, vd{1, 2, 1638}, vd{2, 0, 3449}, vd{1, 3, 1074})
 	for k, cb := range combos {
 		run.Add(bigSpzCase(bigSpzDesc{Version: cb.v, ShDegree: cb.deg, N: cb.n, FracBits: uint8((5 * k) % 24), Seed: uint64(17 + k)}))
 	}
@@ -604,7 +623,7 @@ func bigFixed(run *hx.Run, thorough bool) {
 func spreadBig(run *hx.Run) {
 	var big, rest []hx.Case
 	for _, c := range run.Cases {
-		if strings.HasPrefix(c.Kind, "big") {
+		if strings.HasPrefix(c.Kind, "big") || len(c.Coq) > 30000 {
 			big = append(big, c)
 		} else {
 			rest = append(rest, c)
